@@ -160,14 +160,19 @@ def branchOf (env : Env) (s : State) : Op → String
 
 def dflt : DState := ⟨⟨[], [], [], [], [], []⟩, Container.init []⟩
 
+def initLine (self alpha cmt alphabet root roots : String) : DState × List String :=
+  let env : Env := ⟨parseHex self, parseHex alpha, parseHex cmt, parseHexList alphabet, parseHex root, []⟩
+  let s := Container.init (parseHexList roots)
+  (⟨env, s⟩, [s!"INIT | {fmtState s}"])
+
 def stepLine (st : DState) (line : String) : DState × List String :=
   match words line with
   | [] => (st, [])
   | "case" :: _ => (dflt, [line.trimAscii.toString])
-  | ["op", "init", self, alpha, cmt, alphabet, root, roots] =>
-    let env : Env := ⟨parseHex self, parseHex alpha, parseHex cmt, parseHexList alphabet, parseHex root, []⟩
-    let s := Container.init (parseHexList roots)
-    (⟨env, s⟩, [s!"INIT | {fmtState s}"])
+  | ["op", "init", self, alpha, cmt, alphabet, root, roots] => initLine self alpha cmt alphabet root roots
+  -- trailing `vals=<v>`: number of consensus nodes of the chain (harness-side chain shape). The Alphabet the
+  -- contract pays is the committee = the accounts listed in `alphabet`, whatever the validator count.
+  | ["op", "init", self, alpha, cmt, alphabet, root, roots, _vals] => initLine self alpha cmt alphabet root roots
   | "op" :: rest =>
     match parseRead rest with
     | some op =>
